@@ -405,6 +405,7 @@ package datalog
 //@ ensures in_range: forall j int :: 0 <= j && j < len(*indexes) ==> 0 <= (*indexes)[j] && (*indexes)[j] < len(*facts)
 //@ ensures advanced: result ==> 0 <= *current && *current <= old(*current) && (*indexes)[*current] == old((*indexes)[now(*current)]) + 1 && (forall j int :: *current < j && j <= old(*current) ==> old((*indexes)[j]) == len(*facts) - 1 && (*indexes)[j] == 0) && (forall j int :: 0 <= j && j < len(*indexes) && (j < *current || j > old(*current)) ==> (*indexes)[j] == old((*indexes)[j]))
 //@ ensures exhausted: !result ==> (forall j int :: 0 <= j && j <= old(*current) ==> old((*indexes)[j]) == len(*facts) - 1)
+//@ ensures exhausted_state: !result ==> *current == 0 && (*indexes)[0] == len(*facts) - 1
 
 //@ func (s *FactSet) InsertAll(facts []Fact)
 //@ serves C05 C10 C12 C19
@@ -523,6 +524,14 @@ package datalog
 //@ chan c yields x: tableGrown(*syms, old(*syms))
 //@ chan c sends x: x.error == nil ==> (forall q int :: { predicates[q] } 0 <= q && q < len(predicates) ==> unifiesUpTo(x.MatchedVariables, predicates[q], (*facts)[indexes[q]].Predicate, len(predicates[q].Terms)))
 //@ chan c final_if x: x.error != nil
+// why the enumeration may stop (C05, one clause per return statement; ret0 is the
+// synthetic recover block): no fact at all; odometer exhausted (first index at the last
+// fact with nothing left to carry into); after reporting an error; nothing to join
+//@ ensures ret1_only_without_facts[C05]: len(predicates) > 0 && len(*facts) == 0
+//@ ensures ret2_only_when_exhausted[C05]: current == 0 && indexes[0] == len(*facts) - 1
+//@ ensures ret4_only_after_an_error[C05]: sentFinal(c)
+//@ ensures ret5_only_without_predicates[C05]: len(predicates) == 0
+//@ ensures ret6_only_when_exhausted[C05]: current == 0 && indexes[0] == len(*facts) - 1
 //@ chan c closes
 //@ loop 0 modifies current, indexes, elems(indexes), *syms, spare(*syms)
 //@ loop 1 modifies current, elems(indexes)
